@@ -61,6 +61,44 @@ Proof.
   destruct suf; [|discriminate]. rewrite app_nil_r in H1. symmetry. exact H1.
 Qed.
 
+(* trim_blank_end removes a suffix made of whole blanks (bytes <= 0x20, triples E3 80 80) *)
+Lemma drop_blank_rev_spec r : exists pre, r = pre ++ drop_blank_rev r /\ strip (rev pre) = [] /\ no80 (rev pre).
+Proof.
+  remember (length r) as n eqn:Hn. revert r Hn. induction n as [n IH] using lt_wf_ind. intros r Hn.
+  destruct r as [|z t]; [exists []; repeat split; reflexivity|].
+  cbn [drop_blank_rev]. destruct (z <=? 32) eqn:Ez.
+  - destruct (IH (length t) ltac:(subst n; cbn; lia) t eq_refl) as (pre & H1 & H2 & H3).
+    exists (z :: pre). split; [cbn [app]; f_equal; exact H1|].
+    cbn [rev]. split.
+    + rewrite strip_app_no80 by (cbn; apply N.leb_le in Ez; lia). rewrite H2. cbn [app]. rewrite strip_unfold, Ez. reflexivity.
+    + destruct (rev pre) as [|a q] eqn:E; cbn; [apply N.leb_le in Ez; lia|exact H3].
+  - destruct t as [|y [|x rest]]; try (exists []; repeat split; reflexivity).
+    destruct ((z =? 128) && (y =? 128) && (x =? 227)) eqn:E3; [|exists []; repeat split; reflexivity].
+    apply andb_true_iff in E3. destruct E3 as [E3 Ex]. apply andb_true_iff in E3. destruct E3 as [Ezz Ey].
+    apply N.eqb_eq in Ezz, Ey, Ex. subst z y x.
+    destruct (IH (length rest) ltac:(subst n; cbn; lia) rest eq_refl) as (pre & H1 & H2 & H3).
+    exists (128 :: 128 :: 227 :: pre). split; [cbn [app]; do 3 f_equal; exact H1|].
+    cbn [rev]. rewrite <- !app_assoc. cbn [app]. split.
+    + rewrite strip_app_no80 by (cbn; lia). rewrite H2. reflexivity.
+    + destruct (rev pre) as [|a q] eqn:E; cbn; [lia|exact H3].
+Qed.
+
+Lemma trim_blank_end_spec l : exists suf, l = trim_blank_end l ++ suf /\ strip suf = [] /\ no80 suf.
+Proof.
+  unfold trim_blank_end. destruct (drop_blank_rev_spec (rev l)) as (pre & H1 & H2 & H3).
+  exists (rev pre). split; [|split; assumption].
+  rewrite <- rev_app_distr, <- H1, rev_involutive. reflexivity.
+Qed.
+
+Lemma strip_trim_blank_end l : strip (trim_blank_end l) = strip l.
+Proof.
+  destruct (trim_blank_end_spec l) as (suf & H1 & H2 & H3).
+  rewrite H1 at 2. rewrite strip_app_no80 by exact H3. rewrite H2, app_nil_r. reflexivity.
+Qed.
+
+Lemma trim_blank_end_length l : (length (trim_blank_end l) <= length l)%nat.
+Proof. destruct (trim_blank_end_spec l) as (suf & H1 & _). rewrite H1 at 2. rewrite app_length. lia. Qed.
+
 Lemma strip_prefix_some p l r : strip_prefix p l = Some r -> l = p ++ r.
 Proof.
   unfold strip_prefix. destruct (is_prefix p l) eqn:E; [|discriminate]. intros H. injection H as <-.
@@ -193,16 +231,16 @@ Section WithAlnum.
     assert (Hnew1 : forall s, flc_new1 alnum c (flc_comment comment0) = Some s -> strip s = strip c).
     { intros s H. rewrite Hc in H. apply flc_new1_spec in H. subst s. rewrite Hc.
       apply strip_slashes_space. repeat constructor. exact Hpre. }
-    destruct (Nat.eqb (length (trim_ascii_end c)) (length c)).
+    destruct (Nat.eqb (length (trim_blank_end c)) (length c)).
     - intros H. apply Hnew1, H.
-    - intros H. injection H as <-. rewrite strip_trim_ascii_end.
+    - intros H. injection H as <-. rewrite strip_trim_blank_end.
       destruct (flc_new1 alnum c (flc_comment comment0)) as [s|]; [apply Hnew1; reflexivity|reflexivity].
   Qed.
 
-  Lemma trim_47_no80 l : no80 (trim_ascii_end (47 :: l)).
+  Lemma trim_47_no80 l : no80 (trim_blank_end (47 :: l)).
   Proof.
-    destruct (trim_ascii_end_spec (47 :: l)) as [suf [H1 H2]].
-    destruct (trim_ascii_end (47 :: l)) as [|x t] eqn:E; [exact I|].
+    destruct (trim_blank_end_spec (47 :: l)) as (suf & H1 & _).
+    destruct (trim_blank_end (47 :: l)) as [|x t] eqn:E; [exact I|].
     cbn [app] in H1. injection H1 as <- _. cbn. lia.
   Qed.
 
@@ -213,7 +251,7 @@ Section WithAlnum.
     destruct (flc_comment_spec comment0) as [pre [Hc Hpre]]. rewrite <- P in Hc.
     assert (Hnew1 : forall s, flc_new1 alnum c (flc_comment comment0) = Some s -> exists l, s = 47 :: l).
     { intros s H. rewrite Hc in H. apply flc_new1_spec in H. subst s. cbn [app]. eexists; reflexivity. }
-    destruct (Nat.eqb (length (trim_ascii_end c)) (length c)).
+    destruct (Nat.eqb (length (trim_blank_end c)) (length c)).
     - intros H. destruct (Hnew1 _ H) as [l ->]. cbn. lia.
     - intros H. injection H as <-.
       destruct (flc_new1 alnum c (flc_comment comment0)) as [s|].
